@@ -58,7 +58,16 @@ def spec_residuals(rows, supplied, vals, nrows):
         for r in range(nrows):
             b[i, r] = Sym({})
     x, res, rank, sv = exact_lstsq(na, b)
-    return x, res, rank, len(a)
+    # the residual as the property means it -- how much the supplied values contradict the relations -- is the squared misfit of the
+    # best tensor, whether or not the supplied set determines the tensor (numpy's lstsq reports it only for a full-rank system)
+    true_res = []
+    for r in range(nrows):
+        tot = Sym({})
+        for i in range(len(a)):
+            mis = sum((Sym.of(x[j, r]) * Fraction(a[i][j]) for j in range(len(FC.KEYS)) if a[i][j]), Sym({})) - Sym.of(b[i, r])
+            tot = tot + mis * mis
+        true_res.append(tot)
+    return x, true_res, rank, len(a)
 
 
 def refusal_obligations(chk, F, system, rows, fam, supplied, nrows, rng, atols):
@@ -83,8 +92,9 @@ def refusal_obligations(chk, F, system, rows, fam, supplied, nrows, rng, atols):
                     chk.inconclusive(name, str(e))
                     continue
                 at = Sym.of(Fraction(ratol).limit_denominator(10 ** 12))
+                nontrivial = any(not Sym.of(r_).is_zero() for r_ in res)     # the supplied set can contradict the relations at all
                 rank_refuse = (rank < 21) and not ign_rank
-                if len(res) and not ign_res:
+                if nontrivial and not ign_res:
                     res_refuse = X.cond_or(*[X.cond_rel(">", Sym.of(r) - at) for r in res])
                 else:
                     res_refuse = X.cond_or()
@@ -107,15 +117,15 @@ def refusal_obligations(chk, F, system, rows, fam, supplied, nrows, rng, atols):
                         else:
                             chk.inconclusive(name, "entailment unknown")
                         break
-                    if not raised and not ign_res and len(res):
+                    if not raised and not ign_res and nontrivial and rank == 21:
                         ok = accepted_obligations(chk, F, system, rows, supplied, nrows, vals, p, at, name, rng,
                                                   ign_res, ign_rank, ratol) and ok
                 outcomes = sorted(set("raise" if p.exception is not None else "accept" for p in paths))
                 chk.obligation(name, "unsat" if ok else "sat", seconds=round(time.time() - t0, 3), kind="refusal-iff",
                                detail=dict(paths=len(paths), outcomes=outcomes, rank=rank, design_rows=m, sufficient=is_suff))
                 if fam == "canonical" and not ign_res and not ign_rank:
-                    chk.witness(name + ":both-outcomes-reachable" if len(res) else name + ":reachable",
-                                "sat" if (len(outcomes) == 2 or not len(res)) else "unsat")
+                    chk.witness(name + ":both-outcomes-reachable" if (nontrivial and rank == 21) else name + ":reachable",
+                                "sat" if (len(outcomes) == 2 or not (nontrivial and rank == 21)) else "unsat")
 
 
 _LEMMA = {}
@@ -190,7 +200,8 @@ def replay_refusal(chk, F, system, supplied, nrows, ign_res, ign_rank, ratol, ro
             res = ((a @ x - b) ** 2).sum(axis=0)
         else:
             res = numpy.zeros(nrows)
-        defined = rank == 21 and a.shape[0] > 21
+        # the contradiction between supplied values and relations is the misfit of the best tensor, whether or not the tensor is determined
+        defined = len(a) > 0
         margin = min(abs(r - ratol) for r in res) if defined else 1.0
         if defined and margin < 1e-9:
             continue
@@ -564,20 +575,32 @@ def main():
         rows = FC.capture_relations(F, system)
         basis = FC.invariant_basis(rows)
         fams = supplied_families(rows, basis, random.Random(3), "quick")
-        canon = fams[0][1]
-        sets = [("canonical", canon), ("full-nonzero", fams[1][1])]
+        byname = {n: s_ for n, s_, _ in fams}
+        canon = byname["canonical"]
+        full_nonzero = byname["full-nonzero"]
+        sets = [("canonical", canon), ("full-nonzero", full_nonzero)]
         sets.append(("canonical-minus-%s" % canon[-1], canon[:-1]))
+        # under-determined AND redundant: one canonical key removed, a symmetry partner of a remaining key added (the supplied values can
+        # contradict the relations although they do not determine the tensor) -- the two refusals must stay independent of each other
+        nonzero = full_nonzero
+        for drop_k in reversed(canon):
+            rest = [x for x in canon if x != drop_k]
+            partner = next((e for e in nonzero if e not in canon and not FC.sufficient(rows, rest + [e])
+                            and FC.rank_of(rows, rest + [e]) == FC.rank_of(rows, rest)), None)
+            if partner is not None:
+                sets.append(("under-determined+redundant(%s-for-%s)" % (partner, drop_k), rest + [partner]))
+                break
         if tier != "quick":
             for k in canon[:-1]:
                 sets.append(("canonical-minus-%s" % k, [x for x in canon if x != k]))
-            sets += [(n, s_) for n, s_, _ in fams[2:5]]
+            sets += [(n, s_) for n, s_, _ in fams if n.startswith("exchange-")][:3]
         atols = (0.1,) if tier == "quick" else (0.1, 1e-4)
         for fam, supplied in sets:
             if not supplied:
                 continue
             refusal_obligations(chk, F, system, rows, fam, supplied, 1 if tier == "quick" else 2, rng, atols)
-        invariance_obligations(chk, F, system, rows, fams[1][1], rng)
-        invariance_obligations(chk, F, system, rows, fams[1][1], rng, consistent=True)
+        invariance_obligations(chk, F, system, rows, full_nonzero, rng)
+        invariance_obligations(chk, F, system, rows, full_nonzero, rng, consistent=True)
         if tier != "quick" or system in ("cubic", "trigonal6", "monoclinic"):
             drop_obligation(chk, F, system, rows, canon, rng)
     configuration_twins(chk, F, rng)
